@@ -28,6 +28,7 @@ from .lib_fm import NONE, N, R, V, assign, call, cmp_, decl, el, op, rng_, unit
 
 KIND = 'real64'
 MAXINT = 20          # invariant of the generated programs: every integer variable / element holds |v| <= MAXINT
+CPU_LIMIT = 5         # seconds of CPU time after which transpiled code counts as non-terminating
 NINIT = 7             # initialisation statements at the head of every kernel (kept by the shrinker)
 NODE_LIMIT = 25000   # static bound on every integer sub-expression (the machine's magnitude limit is 30000)
 
@@ -622,28 +623,37 @@ def _run(cmd, cwd, timeout):
 
 
 def f2c_execute(workdir, tag, srcs, prog, inputs, entry='kernel'):
-    """gcc -c the C kernel, gfortran the generated wrapper module + the harness-owned driver, link, run."""
+    """gcc -c the C kernel, gfortran the generated wrapper module + the harness-owned driver, link, run.
+    Non-termination is detected through a CPU-time limit (robust on a loaded machine); a wall-clock timeout of a
+    tool is `inconclusive` (the program is dropped), never a violation."""
     d = os.path.join(workdir, tag)
     os.makedirs(d, exist_ok=True)
     for name, text in list(srcs) + [('drv.f90', driver_for(prog, inputs, entry, wrapper=True))]:
         with open(os.path.join(d, name), 'w') as fh:
             fh.write(text)
-    rc, _, err = _run(['gcc', '-std=gnu11', '-O0', '-w', '-c', f'{entry}_c.c', '-o', f'{entry}_c.o'], d, 120)
+    rc, _, err = _run(['gcc', '-std=gnu11', '-O0', '-w', '-c', f'{entry}_c.c', '-o', f'{entry}_c.o'], d, 300)
     if rc is None:
-        return 'timeout', None, 'gcc timeout'
+        return 'inconclusive', None, 'gcc wall timeout'
     if rc != 0:
         return 'compile-error', None, 'gcc: ' + err[-3000:]
-    rc, _, err = _run(['gfortran', '-O0', '-w', '-ffree-line-length-none', '-o', 'a.out', f'{entry}_fc.F90', 'drv.f90', f'{entry}_c.o', '-lm'], d, 120)
+    rc, _, err = _run(['gfortran', '-O0', '-w', '-ffree-line-length-none', '-o', 'a.out', f'{entry}_fc.F90', 'drv.f90', f'{entry}_c.o', '-lm'], d, 300)
     if rc is None:
-        return 'timeout', None, 'gfortran timeout'
+        return 'inconclusive', None, 'gfortran wall timeout'
     if rc != 0:
         return 'compile-error', None, 'gfortran: ' + err[-3000:]
-    rc, out, err = _run(['./a.out'], d, 20)
+    rc, out, err = _run(['sh', '-c', f'ulimit -t {CPU_LIMIT}; exec ./a.out'], d, 300)
     if rc is None:
-        return 'timeout', None, 'run timeout (transpiled kernel does not terminate)'
+        return 'inconclusive', None, 'run wall timeout'
+    if rc in (-24, 152, -9, 137):
+        return 'timeout', None, f'CPU time limit of {CPU_LIMIT} s exceeded (transpiled kernel does not terminate)'
     if rc != 0:
         return 'runtime-error', None, f'exit status {rc}: ' + err[-1500:]
     return 'ok', sanitize_runs(F.parse_output(out, len(inputs))), err
+
+
+def f2c_execute_batch(workdir, items, entry='kernel'):
+    with cf.ThreadPoolExecutor(max_workers=8) as ex:
+        return list(ex.map(lambda it: f2c_execute(workdir, it['tag'], it['srcs'], it['prog'], it['inputs'], entry), items))
 
 
 # ----------------------------------------------------------------------------- Loki: Fortran -> Python
@@ -659,14 +669,14 @@ def f2py_transform(text, prog, workdir, entry='kernel'):
 
 
 PY_RUNNER = r'''
-import importlib.util, json, sys, traceback
+import importlib.util, json, os, signal, sys
 import numpy as np
-spec = json.load(open('spec.json'))
-def load():
-    sp = importlib.util.spec_from_file_location(spec['entry'], spec['entry'] + '.py')
-    mod = importlib.util.module_from_spec(sp)
-    sp.loader.exec_module(mod)
-    return getattr(mod, spec['entry'])
+CPU_LIMIT = float(sys.argv[2])
+class CpuTimeout(BaseException):
+    pass
+def on_alarm(signum, frame):
+    raise CpuTimeout()
+signal.signal(signal.SIGVTALRM, on_alarm)
 def mk(v, ty):
     if v['t'] == 'arr':
         shape = [u - l + 1 for l, u in zip(v['lb'], v['ub'])]
@@ -692,82 +702,122 @@ def show(val, ty):
             return 'I %d' % int(fv)
         return 'R ' + repr(fv)
     return 'X ' + type(val).__name__
-try:
-    fn = load()
-except BaseException as ex:
-    print('@@LOADFAIL ' + type(ex).__name__ + ': ' + str(ex).replace('\n', ' ')[:300])
-    sys.exit(4)
-status = 0
-for k, inp in enumerate(spec['inputs']):
-    print('@@RUN %d' % k)
-    args = [mk(inp[a['name']], a['type']) for a in spec['args'] if not (a['intent'] == 'out' and not a['dims'])]
-    holders = {a['name']: v for a, v in zip([a for a in spec['args'] if not (a['intent'] == 'out' and not a['dims'])], args)}
+def one(d, k):
+    spec = json.load(open(os.path.join(d, 'spec.json')))
+    out = []
     try:
-        ret = fn(*args)
+        sp = importlib.util.spec_from_file_location('k%d_%s' % (k, spec['entry']), os.path.join(d, spec['entry'] + '.py'))
+        mod = importlib.util.module_from_spec(sp)
+        sp.loader.exec_module(mod)
+        fn = getattr(mod, spec['entry'])
     except BaseException as ex:
-        print('@@EXC ' + type(ex).__name__ + ': ' + str(ex).replace('\n', ' ')[:300])
-        status = 3
-        continue
+        return ['@@LOADFAIL ' + type(ex).__name__ + ': ' + str(ex).replace('\n', ' ')[:300]]
+    passed = [a for a in spec['args'] if not (a['intent'] == 'out' and not a['dims'])]
     scal = [a for a in spec['args'] if not a['dims'] and a['intent'] in ('out', 'inout')]
-    if len(scal) == 0:
-        rets = []
-    elif len(scal) == 1:
-        rets = [ret]
-    else:
-        rets = list(ret) if isinstance(ret, tuple) else None
-    if rets is None or len(rets) != len(scal):
-        print('@@EXC ReturnShape: expected %d scalar results' % len(scal))
-        status = 3
-        continue
-    byname = {a['name']: r for a, r in zip(scal, rets)}
-    print('@@OUT')
-    for a in spec['args']:
-        if a['intent'] not in ('out', 'inout'):
+    for r, inp in enumerate(spec['inputs']):
+        out.append('@@RUN %d' % r)
+        args = [mk(inp[a['name']], a['type']) for a in passed]
+        holders = {a['name']: v for a, v in zip(passed, args)}
+        try:
+            signal.setitimer(signal.ITIMER_VIRTUAL, CPU_LIMIT)
+            try:
+                ret = fn(*args)
+            finally:
+                signal.setitimer(signal.ITIMER_VIRTUAL, 0)
+        except CpuTimeout:
+            out.append('@@CPUTIMEOUT')
+            break
+        except BaseException as ex:
+            out.append('@@EXC ' + type(ex).__name__ + ': ' + str(ex).replace('\n', ' ')[:300])
             continue
-        if a['dims']:
-            arr = holders[a['name']]
-            for val in arr.flatten(order='F'):
-                print(show(val, a['type']))
+        if len(scal) == 0:
+            rets = []
+        elif len(scal) == 1:
+            rets = [ret]
         else:
-            print(show(byname[a['name']], a['type']))
-print('@@END')
-sys.exit(status)
+            rets = list(ret) if isinstance(ret, tuple) else None
+        if rets is None or len(rets) != len(scal):
+            out.append('@@EXC ReturnShape: expected %d scalar results' % len(scal))
+            continue
+        byname = {a['name']: v for a, v in zip(scal, rets)}
+        out.append('@@OUT')
+        try:
+            for a in spec['args']:
+                if a['intent'] not in ('out', 'inout'):
+                    continue
+                if a['dims']:
+                    for val in holders[a['name']].flatten(order='F'):
+                        out.append(show(val, a['type']))
+                else:
+                    out.append(show(byname[a['name']], a['type']))
+        except BaseException as ex:
+            out.append('@@EXC ' + type(ex).__name__ + ': ' + str(ex).replace('\n', ' ')[:300])
+    out.append('@@END')
+    return out
+for k, d in enumerate(json.load(open(sys.argv[1]))):
+    lines = one(d, k)
+    with open(os.path.join(d, 'out.txt.tmp'), 'w') as fh:
+        fh.write('\n'.join(lines) + '\n')
+    os.replace(os.path.join(d, 'out.txt.tmp'), os.path.join(d, 'out.txt'))
 '''
 
 
-def f2py_execute(workdir, tag, srcs, prog, inputs, entry='kernel'):
-    """Run the generated function on every input in a fresh interpreter.  Calling convention as in the
-    repository tests: all dummies except scalar intent(out) are passed (arrays as Fortran-ordered numpy arrays,
-    scalars with the annotated numpy types); scalar inout/out dummies come back as the returned tuple."""
-    d = os.path.join(workdir, tag)
-    os.makedirs(d, exist_ok=True)
-    for name, text in srcs:
-        with open(os.path.join(d, name), 'w') as fh:
-            fh.write(text)
-    u = next(x for x in prog['units'] if x['name'] == entry)
-    args = [dict(name=n, **{k: next(x for x in u['decls'] if x['name'] == n)[k] for k in ('type', 'intent', 'dims')}) for n in u['args']]
-    with open(os.path.join(d, 'spec.json'), 'w') as fh:
-        json.dump({'entry': entry, 'args': args, 'inputs': inputs}, fh)
-    with open(os.path.join(d, 'runner.py'), 'w') as fh:
+def f2py_execute_batch(workdir, items, entry='kernel'):
+    """Run the generated functions in a few worker interpreters (one numpy import per worker).  Calling
+    convention as in the repository tests: all dummies except scalar intent(out) are passed (arrays as
+    Fortran-ordered numpy arrays, scalars with the annotated numpy types); scalar inout/out dummies come back as
+    the returned tuple.  Non-termination is detected through a CPU-time timer around each call."""
+    dirs = []
+    for it in items:
+        d = os.path.join(workdir, it['tag'])
+        os.makedirs(d, exist_ok=True)
+        for name, text in it['srcs']:
+            with open(os.path.join(d, name), 'w') as fh:
+                fh.write(text)
+        u = next(x for x in it['prog']['units'] if x['name'] == entry)
+        args = [dict(name=n, **{k: next(x for x in u['decls'] if x['name'] == n)[k] for k in ('type', 'intent', 'dims')}) for n in u['args']]
+        with open(os.path.join(d, 'spec.json'), 'w') as fh:
+            json.dump({'entry': entry, 'args': args, 'inputs': it['inputs']}, fh)
+        dirs.append(d)
+    if not dirs:
+        return []
+    runner = os.path.join(workdir, f'py_runner_{os.getpid()}.py')
+    with open(runner, 'w') as fh:
         fh.write(PY_RUNNER)
+    nworkers = max(1, min(6, len(dirs) // 4 or 1))
     env = dict(os.environ)
     env['PYTHONPATH'] = ''
     env['PYTHONDONTWRITEBYTECODE'] = '1'
-    try:
-        p = subprocess.run([sys.executable, '-W', 'ignore', 'runner.py'], cwd=d, capture_output=True, text=True, timeout=30, env=env, errors='replace')
-    except subprocess.TimeoutExpired:
-        return 'timeout', None, 'run timeout (transpiled function does not terminate)'
-    out = p.stdout
-    if p.returncode == 4 or '@@LOADFAIL' in out:
+
+    def worker(w):
+        mine = dirs[w::nworkers]
+        lst = os.path.join(workdir, f'py_batch_{os.getpid()}_{w}_{abs(hash(mine[0])) % 10**8}.json')
+        with open(lst, 'w') as fh:
+            json.dump(mine, fh)
+        try:
+            subprocess.run([sys.executable, '-W', 'ignore', runner, lst, str(CPU_LIMIT)], cwd=workdir, capture_output=True, text=True,
+                           timeout=240 + 30 * len(mine), env=env, errors='replace')
+        except subprocess.TimeoutExpired:
+            pass
+    with cf.ThreadPoolExecutor(max_workers=nworkers) as ex:
+        list(ex.map(worker, range(nworkers)))
+    res = []
+    for it, d in zip(items, dirs):
+        p = os.path.join(d, 'out.txt')
+        if not os.path.exists(p):
+            res.append(('inconclusive', None, 'python worker did not deliver (wall timeout or crash)'))
+            continue
+        out = open(p).read()
         m = re.search(r'@@LOADFAIL (.*)', out)
-        return 'compile-error', None, 'python import: ' + (m.group(1) if m else p.stderr[-800:])
-    if p.returncode == 3:
-        m = re.search(r'@@EXC (.*)', out)
-        return 'runtime-error', None, 'python: ' + (m.group(1) if m else '')
-    if p.returncode != 0:
-        return 'runtime-error', None, f'python exit {p.returncode}: ' + p.stderr[-800:]
-    runs = py_parse(out, len(inputs))
-    return 'ok', sanitize_runs(runs), p.stderr[-300:]
+        if m:
+            res.append(('compile-error', None, 'python import: ' + m.group(1)))
+        elif '@@CPUTIMEOUT' in out:
+            res.append(('timeout', None, f'CPU time limit of {CPU_LIMIT} s exceeded in one call (transpiled function does not terminate)'))
+        elif '@@EXC' in out:
+            res.append(('runtime-error', None, 'python: ' + re.search(r'@@EXC (.*)', out).group(1)))
+        else:
+            res.append(('ok', sanitize_runs(py_parse(out, len(it['inputs']))), ''))
+    return res
 
 
 def py_parse(text, nruns):
@@ -839,16 +889,6 @@ def check(ctx, label, cases, transform, execute, *, entry='kernel', max_disagree
         res['orig'] = (st, sanitize_runs(F.parse_output(out, len(c['inputs']))) if st == 'ok' else None, err)
         return res
 
-    def run_new(res):
-        if 'srcs' not in res:
-            return res
-        c = cases[res['idx']]
-        try:
-            res['new'] = execute(ctx.work, f"{label}-{res['idx']}-new", res['srcs'], c['prog'], c['inputs'], entry)
-        except MachineryError:
-            raise
-        return res
-
     import time
     t0 = time.time()
     with cf.ThreadPoolExecutor(max_workers=8) as ex:
@@ -866,15 +906,18 @@ def check(ctx, label, cases, transform, execute, *, entry='kernel', max_disagree
         except Exception as ex:  # pylint: disable=broad-except
             res['new'] = ('transform-raised', None, _root_cause(ex) + '\n' + traceback.format_exc()[-1200:])
     t2 = time.time()
-    with cf.ThreadPoolExecutor(max_workers=8) as ex:
-        results = list(ex.map(run_new, results))
+    todo = [r for r in results if 'srcs' in r]
+    outs = execute(ctx.work, [dict(tag=f"{label}-{r['idx']}-new", srcs=r['srcs'], prog=cases[r['idx']]['prog'], inputs=cases[r['idx']]['inputs'])
+                              for r in todo], entry)
+    for r, o in zip(todo, outs):
+        r['new'] = o
     t3 = time.time()
     tm = ctx.cover.setdefault('phase_wall_s', {'gfortran_original': 0, 'loki_transform': 0, 'build_run_transpiled': 0})
     for kk, vv in (('gfortran_original', t1 - t0), ('loki_transform', t2 - t1), ('build_run_transpiled', t3 - t2)):
         tm[kk] = round(tm[kk] + vv, 1)
 
     tcases, tmeta = [], []
-    stats = dict(programs=len(cases), orig_failed=0, illegal_runs=0, oracle_disagreement=0, judged_runs=0, judged_programs=0)
+    stats = dict(programs=len(cases), orig_failed=0, inconclusive=sum(r['new'][0] == 'inconclusive' for r in results), illegal_runs=0, oracle_disagreement=0, judged_runs=0, judged_programs=0)
     for r in results:
         c = cases[r['idx']]
         if r['orig'][0] != 'ok':
